@@ -172,9 +172,9 @@ func Spec(prop, tier string) *core.CheckSpec {
 				{Engine: "ctx", Mode: "", Runs: n(300000, 30000000), Millis: ms(30000, 900000), Chunk: 20000},
 				{Engine: "ctxlua", Mode: "", Runs: n(8000, 800000), Millis: ms(20000, 400000), Chunk: 2000, HangS: 60, Note: "the same laws at the Lua level (lib/runtimelib): generated nestings of runtime.callcontext - direct, inside pcall, inside a coroutine - with hard/soft limits and flags from the tape; every level reports runtime.context() before the call, on entry, while working and after; oracle L1-L7 is arithmetic over those reports (child budget = min(requested, what the parent had left), soft <= hard, flags inherited, status/results/errors truthful, used < kill, parent charged, due, total work within the outermost limit)"},
 			},
-			Real:   []string{"runtime.Runtime context manager (PushContext/PopContext/Require*/Release*/SetStopLevel/Due), unmodified"},
-			Stub:   []string{"wall clock (simulated through the verifClock hook)", "the host driver recovers termination panics as CallContext does"},
-			Assume: []string{"the driver only issues operations a host may legally issue (no requirement in a terminated context, releases within what the frame holds)"},
+			Real:   []string{"runtime.Runtime context manager (PushContext/PopContext/Require*/Release*/SetStopLevel/Due), unmodified", "ctxlua batch: the whole of golua (compiler, VM, lib/runtimelib, pcall, coroutines) from the /repo working tree"},
+			Stub:   []string{"wall clock (simulated through the verifClock hook)", "the host driver recovers termination panics as CallContext does", "ctxlua batch: goroutine hand-offs under the controlled scheduler, host callback emit"},
+			Assume: []string{"the driver only issues operations a host may legally issue (no requirement in a terminated context, releases within what the frame holds)", "used of a resource for which no limit (hard or soft, own or inherited) is in force is not specified and not compared", "ctxlua compares reports taken a few instructions apart: 400 ticks / 6000 bytes of slack between the parent's report and the child's budget, either answer of due within 150 ticks / 400 bytes of a soft limit"},
 		}
 	}
 	return nil
